@@ -166,10 +166,10 @@ def sleep (k : Kernel) (ms : Nat) : Kernel :=
   let ms := if ms = 0 then 1 else ms
   ({ k with now := k.now + ms, slept := k.slept + ms, spins := k.spins + 1 }).tick
 
-def snapshot (k : Kernel) : List (Nat × PState) :=
+def snapshot (k : Kernel) : List (Nat × PState × Option Nat) :=
   ((sortNat (k.procs.map (·.pid))).filterMap fun pid =>
     match k.find pid with
-    | some p => if p.st = .gone then none else some (pid, p.st)
+    | some p => if p.st = .gone then none else some (pid, p.st, p.ppid)
     | none => none)
 
 end Kernel
